@@ -68,6 +68,9 @@ class Run:
         self.exhaustive_parts = []
         self.per_obl_timeout = float(os.environ.get("PV_TIMEOUT", 10 if tier == "quick" else 60))
         self.paths = 0
+        self.nonproved = 0
+        self.section_budget = float(os.environ.get("PV_SECTION_BUDGET", 150 if tier == "quick" else 1200))
+        self.deadline = self.t0 + (float(os.environ.get("PV_RUN_BUDGET", 600 if tier == "quick" else 3600)))
 
     # ---------------------------------------------------------------- bookkeeping
     def assume(self, *ids):
@@ -93,6 +96,8 @@ class Run:
     def record(self, name, function, status, backend="", secs=0.0, detail="", kind="post"):
         self.function(function)
         self.obls.append(dict(name=name, function=function, kind=kind, status=status, backend=backend, secs=round(secs, 4), detail=detail))
+        if status != "proved":
+            self.nonproved += 1
         if os.environ.get("PV_VERBOSE"):
             print(f"  [{time.time() - self.t0:7.1f}s] {status:10s} {secs:6.2f}s {backend:12s} {name}", flush=True)
         if backend:
@@ -101,23 +106,70 @@ class Run:
             self.samples.append(dict(obligation=name, function=function, formula=detail[:400], backend=backend))
 
     # ---------------------------------------------------------------- proving
-    def prove(self, name, function, hyps, goal, replay=None, kind="post", timeout=None, structural=False, detail=None):
-        """Discharge one obligation.  `replay(model)` -> (confirmed, info) runs the real code."""
+    def prove(self, name, function, hyps, goal, replay=None, kind="post", timeout=None, structural=False, detail=None, lazy=(), concretise=()):
+        """Discharge one obligation.  `replay(model)` -> (confirmed, info) runs the real code.
+
+        lazy:        definitional equalities of contract stubs, only supplied when the proof needs them
+        concretise:  lists of extra hypotheses (e.g. a concrete orientation) that make the refutation query
+                     easy; used only to *find* counterexamples, which are then replayed natively"""
         timeout = timeout or self.per_obl_timeout
+        det = detail if detail is not None else _short(goal)
+        if time.time() > self.deadline:
+            self.record(name, function, "undecided", "", 0.0, f"{det} [time budget of this section exhausted before this obligation was tried]", kind)
+            return "undecided"
+        # enough violations / unproved obligations already: do not spend solver time on further searches
+        hurry = len(self.violations) >= 3 or self.nonproved >= 12
+        if hurry:
+            timeout = min(timeout, 1.5)
+        fallback = self.tier == "thorough" and not hurry
+
+        def search():
+            if replay is None or not concretise or hurry:
+                return False
+            for extra in concretise:
+                try:
+                    vc = E.prove(list(hyps) + list(lazy) + list(extra), goal, timeout_s=min(timeout, 5), use_cvc5=False)
+                except z3.Z3Exception:
+                    continue
+                if vc.status == "refuted":
+                    try:
+                        confirmed, info = replay(vc.model)
+                    except Exception as e:
+                        confirmed, info = False, dict(replay_error=str(e))
+                    if confirmed:
+                        info = dict(info)
+                        info.update(obligation=name, function=function, formula=det, solver_output=_model_str(vc.model))
+                        self._violation(name, function, info, no_input=False, kind=kind, det=det, v=vc)
+                        return True
+            return False
+
         try:
-            v = E.prove(hyps, goal, timeout_s=timeout)
+            v = E.prove(hyps, goal, timeout_s=timeout, use_cvc5=(not lazy) and not hurry)
+            if v.status == "proved":
+                self.record(name, function, "proved", v.backend, v.secs, det, kind)
+                return "proved"
+            searched = False
+            if lazy:
+                if v.status == "refuted":
+                    searched = True
+                    if search():
+                        return "refuted"
+                v0 = v
+                v = E.prove(list(hyps) + list(lazy), goal, timeout_s=timeout, use_cvc5=fallback)
+                v.secs += v0.secs
+                if v.status == "proved":
+                    self.record(name, function, "proved", v.backend, v.secs, det, kind)
+                    return "proved"
+            if not searched and search():
+                return "refuted"
         except z3.Z3Exception as e:
             self.record(name, function, "undecided", "z3", 0.0, f"solver error {e}", kind)
             return "undecided"
-        det = detail if detail is not None else _short(goal)
-        if v.status == "proved":
-            self.record(name, function, "proved", v.backend, v.secs, det, kind)
-            return "proved"
         if v.status == "undecided":
             self.record(name, function, "undecided", v.backend, v.secs, f"{det} [{v.reason}]", kind)
             return "undecided"
         # refuted: replay on the real code
-        return self.refuted(name, function, v, hyps, goal, replay, kind, structural, det)
+        return self.refuted(name, function, v, list(hyps) + list(lazy), goal, replay, kind, structural, det)
 
     def refuted(self, name, function, v, hyps, goal, replay, kind, structural, det):
         model = v.model
@@ -201,6 +253,41 @@ class Run:
             self.checker_failures.append(f"cover {name}: precondition unsatisfiable")
         return r
 
+    # ---------------------------------------------------------------- parallel sections (fork)
+    def fork_map(self, func, items, nproc=None):
+        """Run func(child_run, item) for every item in forked children and merge what they recorded."""
+        import multiprocessing as mp
+
+        nproc = max(1, min(nproc or int(os.environ.get("PV_NPROC", "14")), len(items)))
+        if nproc == 1 or os.environ.get("PV_SERIAL"):
+            for it in items:
+                func(self, it)
+            return
+        ctx = mp.get_context("fork")
+        with ctx.Pool(nproc, initializer=_child_init) as pool:
+            outs = pool.map(_child_call, [(self.pid, self.tier, self.seed, func, it) for it in items], chunksize=1)
+        for out in outs:
+            self.merge(out)
+
+    def export(self):
+        return dict(functions=self.functions, obls=self.obls, bounded=self.bounded, assumptions=sorted(self.assumptions), violations=self.violations,
+                    known_hits=self.known_hits, notes=self.notes, solver_secs=self.solver_secs, samples=self.samples,
+                    checker_failures=self.checker_failures, paths=self.paths)
+
+    def merge(self, d):
+        self.functions.update(d["functions"])
+        self.obls += d["obls"]
+        self.bounded += d["bounded"]
+        self.assumptions.update(d["assumptions"])
+        self.violations += d["violations"]
+        self.known_hits += d["known_hits"]
+        self.notes += d["notes"]
+        for k, v in d["solver_secs"].items():
+            self.solver_secs[k] = self.solver_secs.get(k, 0.0) + v
+        self.samples = (self.samples + d["samples"])[:6]
+        self.checker_failures += d["checker_failures"]
+        self.paths += d["paths"]
+
     # ---------------------------------------------------------------- bounded stand-ins
     def bounded_result(self, name, function, bound, evaluations, failures, distinct=None):
         """failures: list of dict(inputs=..., observed=..., checker=...)"""
@@ -279,9 +366,7 @@ class Run:
 
 
 def _short(goal, n=300):
-    s = str(goal).replace("\n", " ")
-    s = re.sub(r"\s+", " ", s)
-    return s if len(s) <= n else s[:n] + "..."
+    return E.brief(goal, n)
 
 
 def _model_str(m):
@@ -307,3 +392,24 @@ def _jsonable(o):
     if isinstance(o, complex):
         return [o.real, o.imag]
     return str(o)
+
+
+def _child_init():
+    from . import native
+
+    native._W.clear()
+
+
+def _child_call(job):
+    pid, tier, seed, func, item = job
+    from . import native
+
+    r = Run(pid, tier, seed)
+    r.deadline = r.t0 + r.section_budget
+    try:
+        func(r, item)
+    except Exception:
+        r.checker_failures.append(f"exception in parallel section {item!r}: " + traceback.format_exc()[-1500:])
+    finally:
+        native.close_all()
+    return r.export()
